@@ -106,10 +106,11 @@ class LoRA(Module):
     )
 
   def __call__(self, x: jax.Array):
-    x, lora_a, lora_b = promote_dtype(
+    # the base module gets the original x, not the one cast to self.dtype
+    x_lora, lora_a, lora_b = promote_dtype(
       (x, self.lora_a.value, self.lora_b.value), dtype=self.dtype
     )
-    out = x @ lora_a @ lora_b
+    out = x_lora @ lora_a @ lora_b
     if self.base_module is not None:
       if not callable(self.base_module):
         raise ValueError('`self.base_module` must be callable.')
